@@ -24,3 +24,5 @@ register_record("GuardrailMetadata", {"beacon_config_offset": "int", "guard_conf
                                       "unmasked_guard_config": "bytes", "checksum": "int",
                                       "payload_xor_key": "opt[bytes]", "unmasked_beacon_config": "opt[bytes]",
                                       "settings": "any"}, "dissect.cobaltstrike.guardrails")
+
+register_object("BeaconVersion", {"version": "str", "tuple": "any", "date": "any"}, "dissect.cobaltstrike.version")
